@@ -326,7 +326,7 @@ class RefCache:
 
     def op_expire(self, now=None):
         t = now or self.now
-        gone = [it for it in self.items if it.expire is not None and 0 < it.expire < t]
+        gone = [it for it in self.items if it.expire is not None and it.expire < t]
         for it in gone:
             self._remove(it)
         return len(gone)
